@@ -8,7 +8,8 @@ EXPLANATION = ("C14: pipe callbacks are invoked only from nni_pipe_run_cb, behin
                "both start functions, REM_POST only in pipe_reap between the closes and nni_pipe_remove; a dialer records its "
                "pipe before anything can close it, so that nni_pipe_remove restarts the dial timer; d_connect is reached only "
                "through dialer_connect_start; every non-terminal connect failure without a waiting user restarts the timer and "
-               "the timer callback reconnects; listeners keep accepting (C11.R4).")
+               "the timer callback reconnects; listeners keep accepting (C11.R4)."
+               " Also: s_want_evs is recomputed on every registration change (R7) and the redial back-off is clamped after every growth (R8).")
 
 
 def rule_r1(ctx):
